@@ -72,8 +72,8 @@ META = {
         "memory beyond one-cell alloca/store/load, GEP, calls, intrinsics, globals, struct/array/vector types, "
         "inline asm, function/argument attributes, target triple and data layout."),
 }
-COQ_TARGETS = ["Gen/C23_tables.vo", "C23/Model.vo", "C23/Sem.vo", "C23/Enc.vo", "C23/ProofsBits.vo", "C23/ProofsTables.vo",
-               "C23/ProofsPhi.vo", "Props/C23.vo"]
+COQ_TARGETS = ["Gen/C23_tables.vo", "C23/Model.vo", "C23/Sem.vo", "C23/ProofsBits.vo", "C23/ProofsTables.vo",
+               "C23/ProofsPhi.vo", "C23/Whole.vo", "C23/ProofsWhole.vo", "C23/Enc.vo", "Props/C23.vo"]
 REQ = ["Gen.C23_tables", "C23.Model", "C23.Enc"]
 ASSUMPTIONS = [
     "a valid case = an llvm-dialect function obeying MLIR's rules (types, predicate/flag encodings, operand counts, "
@@ -418,6 +418,15 @@ def run_families(ctx: Ctx, fams):
     """fams: [(name, cases, n_inputs)]; implementation family by family, the model of all families in one batch"""
     allc = [(name, c) for name, cases, _ in fams for c in cases]
     exprs = [coq_expr(c) for _, c in allc]
+    # whole-run: the Coq machines run_src / run_tgt (C23/Whole.v) on concrete inputs of valid integer functions
+    wr = []
+    for name, cases, _ in fams:
+        for c in cases:
+            if G.validity(c)[0] and jit_types_ok(c) and all(t >= 1 for b in c["blocks"] for _, t in b["args"]):
+                wr.append((c, G.jit_inputs(ctx.rng, c, 3)))
+    wr.sort(key=lambda x: not any(b["term"][0] == "condbr" and b["term"][2] == b["term"][4] for b in x[0]["blocks"]))
+    wr = wr[: (1500 if ctx.tier == "thorough" else 150)]
+    exprs += [f"enc_runs ({coq_expr(c)[len('enc_func '):]}) {coq_list(czs(i) for i in ins)} 200%nat" for c, ins in wr]
     t0 = time.time()
     recs = []
     for name, cases, n_in in fams:
@@ -434,7 +443,8 @@ def run_families(ctx: Ctx, fams):
         model_err = str(e)
     active = ctx.active_known_ids()
     pos = 0
-    stats = {"translated": 0, "raised": 0, "llvm_rejected": 0, "inputs_executed": 0, "inputs_excluded": 0, "invalid_sources": 0}
+    stats = {"translated": 0, "raised": 0, "llvm_rejected": 0, "inputs_executed": 0, "inputs_excluded": 0, "invalid_sources": 0,
+             "whole_agrees": 0, "whole_okb_true": 0, "lit_matches_true": 0}
     for (name, cases, _), (rs, dt) in zip(fams, recs):
         fails, diverge, known_hits = [], [], {}
         for i, (c, rec) in enumerate(zip(cases, rs)):
@@ -456,22 +466,82 @@ def run_families(ctx: Ctx, fams):
                     fails.append((c, rec["struct"] if rec["struct"][0] != 0 else {"exc": rec["exc"], "verify": rec["verify"],
                                                                                    "mismatch": rec["mismatch"], "crash": rec["crash"]}, why))
             if model is not None:
-                mc, kflag = LL.canon_model(c, model[pos + i])
+                mc, flags = LL.canon_model(c, model[pos + i])
                 if mc != rec["struct"]:
                     diverge.append((c, rec["struct"], mc))
-                elif kflag == 0:
-                    diverge.append((c, "phi table of conv_func", "differs from k_build on the kernel projection"))
+                elif flags:
+                    kflag, wflag, wok, lit = flags
+                    stats["whole_agrees"] += wflag == 1
+                    stats["whole_okb_true"] += wok == 1
+                    stats["lit_matches_true"] += lit == 1
+                    double_edge = any(b["term"][0] == "condbr" and b["term"][2] == b["term"][4] and b["term"][3]
+                                      for b in c["blocks"])
+                    if lit == 0 and not double_edge:
+                        diverge.append((c, "conv_func output", "is not literally tr_prog although no select was needed"))
+                    if kflag == 0:
+                        diverge.append((c, "phi table of conv_func", "differs from k_build on the kernel projection"))
+                    elif wflag == 0:
+                        diverge.append((c, "conv_func output", "differs from tr_prog, the translation C23_whole_function_sim is about"))
+                    elif wok != 1 and G.validity(c)[0]:
+                        diverge.append((c, "valid translated function", "whole_okb = false: hypothesis of C23_whole_function_sim fails"))
         pos += len(cases)
         ctx.evaluations += len(cases)
         for c, rec in list(zip(cases, rs))[:1]:
             ctx.sample({"family": name, "case": c, "impl": rec["struct"], "inputs_checked": rec["checked"]}, limit=6)
         fam = _report(ctx, name, len(cases), fails, diverge, known_hits, None, name == "cfg-sweep", time.time() - dt)
         fam["wall_s"] = round(dt, 2)
+    if model is not None:
+        whole_run_check(ctx, wr, model[pos:])
     ctx.coverage["oracle"] = stats
     ctx.coverage["jit_worker_restarts"] = JIT.restarts
     ctx.coverage["coq_batch"] = {"expressions": len(exprs), "wall_s": round(time.time() - t0 - sum(d for _, d in recs), 1)}
     if model_err:
         ctx.broken.append({"correspondence": "all families", "model_unavailable": model_err[-800:]})
+
+
+def whole_run_check(ctx: Ctx, wr, results):
+    """the outcome of the Coq SOURCE machine (sem_d) and TARGET machine (sem_i + phis) on concrete inputs against
+    the python reference evaluator of LLVM semantics (which the JIT oracle ties to LLVM itself)"""
+    st = {"runs": 0, "ret_agree": 0, "poison_agree": 0, "fuel_or_outside_fragment": 0, "target_equals_source": 0,
+          "literal_equals_source": 0, "literal_equals_source_with_materialised_selects": 0}
+    bad = []
+    for (c, ins), res in zip(wr, results):
+        selects = any(b["term"][0] == "condbr" and b["term"][2] == b["term"][4]
+                      and list(b["term"][3]) != list(b["term"][5]) for b in c["blocks"])
+        for inp, (src, tgt, lit) in zip(ins, res):
+            st["runs"] += 1
+            if src[0] in (3, 4, 1):
+                st["fuel_or_outside_fragment"] += 1
+                continue
+            if tgt == src:
+                st["target_equals_source"] += 1
+            else:
+                bad.append((c, inp, "run_tgt", tgt, "run_src", src))
+            # run_lit executes conv_func's literal output, materialised selects included (the case the theorems
+            # cover only through the KSel abstraction)
+            if lit == src:
+                st["literal_equals_source"] += 1
+                st["literal_equals_source_with_materialised_selects"] += selects
+            else:
+                bad.append((c, inp, "run_lit", lit, "run_src", src))
+            try:
+                ref = ("ret", REF.run(c, inp))
+            except REF.Excluded as e:
+                ref = ("excluded", str(e))
+            if src[0] == 0 and ref == ("ret", src[1]):
+                st["ret_agree"] += 1
+            elif src[0] == 2 and ref[0] == "excluded" and ref[1] != "step budget":
+                st["poison_agree"] += 1
+            elif ref == ("excluded", "step budget"):
+                st["fuel_or_outside_fragment"] += 1
+            else:
+                bad.append((c, inp, "run_src", src, "reference", ref))
+    ctx.evaluations += st["runs"]
+    ctx.coverage["whole_run"] = st
+    if bad:
+        bad.sort(key=lambda x: len(json.dumps(to_jsonable(x[0]))))
+        ctx.broken.append({"correspondence": "whole-run (Coq machines vs reference LLVM semantics)", "count": len(bad),
+                           "first": to_jsonable(bad[0])})
 
 
 def replay_known(ctx: Ctx):
